@@ -45,7 +45,14 @@ class Clock(object):
         return float(self.t)
 
 
+def strict(v):
+    """type-strict identity of JSON-compatible data (Python's == equates 1, True and 1.0)"""
+    return json.dumps(v, sort_keys=True)
+
+
 def rand_value(rng, depth=0):
+    if rng.chance(0.2):
+        return rng.pick([0, 1, True, False, 1.0, 0.0, -1, 2, 2.0, '1', 'true', None, [], {}, [1], [True], [1.0]])
     r = rng.randrange(10)
     if r == 0:
         return None
@@ -175,7 +182,7 @@ class World(object):
         if tamper is None and sent is not None:
             exp = c['expires']
             if exp is None or now <= exp - 1:
-                if seen != c['data']:
+                if strict(seen) != strict(c['data']):
                     bad('intact-cookie-not-presented', 'endpoint saw %r, the client stored %r' % (seen, c['data']))
                     return None
                 sh.hit('intact-roundtrip')
@@ -197,7 +204,7 @@ class World(object):
             else:
                 p = self.payload_of(sent)
                 hit = self.issued.get(p) if p is not None else None
-                if hit is None or hit[0] != seen or (hit[1] is not None and now >= hit[1] + 1):
+                if hit is None or strict(hit[0]) != strict(seen) or (hit[1] is not None and now >= hit[1] + 1):
                     bad('forged-cookie-presented', 'endpoint saw %r from a cookie the server never issued in this form' % (seen,))
                     return None
                 sh.hit('tamper-accepted-same-payload')
@@ -229,7 +236,7 @@ class World(object):
         elif op[0] == 'clear':
             new = {}
         after = json.loads(ex.body.decode('utf8'))['after']
-        if after != new:
+        if strict(after) != strict(new):
             self.sh.violation('C16/cookie-object-misbehaves', 'after %r the cookie holds %r, expected %r' % (op, after, new), {'steps': self.steps})
             self.dead = True
             return
